@@ -365,50 +365,70 @@ func c20d(c *Ctx) {
 		}
 	}
 	nText, nMove := 0, 0
-	instrs(fn, func(in ssa.Instruction) {
-		mu, ok := in.(*ssa.MapUpdate)
-		if !ok {
-			return
-		}
-		key := c.term(fn, mu.Key)
-		mapT := c.term(fn, mu.Map)
-		pos := c.W.Pos(mu.Pos())
-		guard := hasLit(c.mustLits(fn, mu.Block()), "-"+mapT+"["+key+"]#1")
-		after := topCall != nil && !canReach(mu, topCall)
-		switch {
-		case strings.HasSuffix(key, ".Name") && strings.Contains(key, ".Texts"):
-			nText++
-			c.Check(guard, name+"/text-names/check-before-insert", pos, "text name inserted only after the lookup of the same name failed", "text name "+pretty(key)+" inserted without a failed lookup of the same name")
-			c.Check(after, name+"/text-names/after-hoisting", pos, "the clash check runs after all statements were parsed (all hoisted texts exist)", "the text clash check can run before parsing is complete")
-			// the list ranged over contains inline and explicit texts
-			okInline, okExplicit := false, false
-			for _, st := range storesToField(fn, "ast", "Program", "Texts") {
-				v := c.term(fn, st.Val)
-				if strings.Contains(v, "$0.inlineTexts") && instrDominates(st, mu) {
-					okInline = true
-				}
-				if strings.Contains(v, "new#") && strings.Contains(v, "ast.Text") {
-					okExplicit = true
+	for _, mem := range c.unitOf(fn) {
+		f := mem.fn
+		instrs(f, func(in ssa.Instruction) {
+			mu, ok := in.(*ssa.MapUpdate)
+			if !ok {
+				return
+			}
+			key := c.term(f, mu.Key)
+			mapT := c.term(f, mu.Map)
+			pos := c.W.Pos(mu.Pos())
+			guard := hasLit(c.mustLits(f, mu.Block()), "-"+mapT+"["+key+"]#1")
+			// position in ParseProgram: the update itself, or the call of the helper holding it
+			var at ssa.Instruction = mu
+			if mem.site != nil {
+				at = mem.site.(ssa.Instruction)
+			}
+			after := topCall != nil && !canReach(at, topCall)
+			// which list is ranged over
+			listT := ""
+			if i := strings.Index(key, "[phi("); i > 0 {
+				listT = key[:i]
+			}
+			if mem.site != nil && strings.HasPrefix(listT, "$") {
+				// parameter of the helper: the argument passed by ParseProgram
+				var k int
+				fmt.Sscanf(listT, "$%d", &k)
+				if k < len(mem.site.Common().Args) {
+					listT = c.term(fn, mem.site.Common().Args[k])
 				}
 			}
-			c.Check(okInline && okExplicit, name+"/text-names/covers-inline-and-explicit", pos, "checked list = hoisted inline texts + explicit text statements", "the list checked for clashes does not contain both the hoisted inline texts and the explicit text statements")
-		case strings.HasSuffix(key, ".Name.Value"):
-			nMove++
-			c.Check(guard, name+"/movement-names/check-before-insert", pos, "movement name inserted only after the lookup of the same name failed", "movement name "+pretty(key)+" inserted without a failed lookup of the same name")
-			c.Check(after, name+"/movement-names/after-hoisting", pos, "the clash check runs after all statements were parsed", "the movement clash check can run before parsing is complete")
-			okInline := false
-			for _, st := range storesToField(fn, "ast", "Program", "TopLevelStatements") {
-				if canReach(st, mu) && !canReach(mu, st) {
-					for _, e := range appendElems(st.Val) {
-						if strings.Contains(c.term(fn, e), "$0.inlineMovements") {
-							okInline = true
+			switch {
+			case strings.HasSuffix(key, ".Name") && strings.Contains(listT, ".Texts"):
+				nText++
+				c.Check(guard, name+"/text-names/check-before-insert", pos, "text name inserted only after the lookup of the same name failed", "text name "+pretty(key)+" inserted without a failed lookup of the same name")
+				c.Check(after, name+"/text-names/after-hoisting", pos, "the clash check runs after all statements were parsed (all hoisted texts exist)", "the text clash check can run before parsing is complete")
+				okInline, okExplicit := false, false
+				for _, st := range storesToField(fn, "ast", "Program", "Texts") {
+					v := c.term(fn, st.Val)
+					if strings.Contains(v, "$0.inlineTexts") && canReach(st, at) {
+						okInline = true
+					}
+					if strings.Contains(v, "new#") && strings.Contains(v, "ast.Text") {
+						okExplicit = true
+					}
+				}
+				c.Check(okInline && okExplicit, name+"/text-names/covers-inline-and-explicit", pos, "checked list = hoisted inline texts + explicit text statements", "the list checked for clashes does not contain both the hoisted inline texts and the explicit text statements")
+			case strings.HasSuffix(key, ".Name.Value") && (strings.Contains(listT, ".TopLevelStatements") || strings.Contains(key, "MovementStatement")):
+				nMove++
+				c.Check(guard, name+"/movement-names/check-before-insert", pos, "movement name inserted only after the lookup of the same name failed", "movement name "+pretty(key)+" inserted without a failed lookup of the same name")
+				c.Check(after, name+"/movement-names/after-hoisting", pos, "the clash check runs after all statements were parsed", "the movement clash check can run before parsing is complete")
+				okInline := false
+				for _, st := range storesToField(fn, "ast", "Program", "TopLevelStatements") {
+					if canReach(st, at) && !canReach(at, st) {
+						for _, e := range appendElems(st.Val) {
+							if strings.Contains(c.term(fn, e), "$0.inlineMovements") {
+								okInline = true
+							}
 						}
 					}
 				}
+				c.Check(okInline, name+"/movement-names/covers-inline", pos, "hoisted movements are added to the checked list first", "hoisted inline movements are not appended to the statements that are checked for name clashes")
 			}
-			c.Check(okInline, name+"/movement-names/covers-inline", pos, "hoisted movements are added to the checked list first", "hoisted inline movements are not appended to the statements that are checked for name clashes")
-		}
-	})
+		})
+	}
 	c.Check(nText == 1, name+"/text-names/site", c.W.FuncPos(fn), "one text-name set", fmt.Sprintf("found %d text-name insertions", nText))
 	c.Check(nMove == 1, name+"/movement-names/site", c.W.FuncPos(fn), "one movement-name set", fmt.Sprintf("found %d movement-name insertions", nMove))
 }
